@@ -33,17 +33,26 @@ class Tables(object):
     """P and Q as one evaluator array t[0..1024) (P = t[0..512), Q = t[512..1024)) so that data-dependent
     look-ups are select terms over the same array value as in the implementation"""
 
-    def __init__(self, arr):
+    def __init__(self, arr, arr_q=None):
+        """one array of 1024 words, or (when the implementation keeps P and Q in two fields) two arrays of 512"""
         self.arr = arr
+        self.arr_q = arr_q
 
     def get(self, i):
-        return self.arr.get(i)
+        if self.arr_q is None:
+            return self.arr.get(i)
+        return self.arr.get(i) if i < 512 else self.arr_q.get(i - 512)
 
     def set(self, i, v):
-        self.arr = self.arr.set(i, v)
+        if self.arr_q is None or i < 512:
+            self.arr = self.arr.set(i, v)
+        else:
+            self.arr_q = self.arr_q.set(i - 512, v)
 
     def sel(self, base, idx_term):
-        return self.arr.select(T.add(c_(base, 64), idx_term))
+        if self.arr_q is None:
+            return self.arr.select(T.add(c_(base, 64), idx_term))
+        return (self.arr if base == 0 else self.arr_q).select(idx_term)
 
 
 def step(tb, i, feedback):
